@@ -464,8 +464,9 @@ def oracle_cli(case, rec=None):
         rejected = False
     except Reject as r:
         exp, rejected, why = None, True, str(r)
-    if case["files"] is not None and case.get("path_form") == "rel" and case["cwd"] == "root":
-        # 'work/cfg0.ini': a two-component relative name is by definition looked up in the bundled config_files directory (OPTIONS.md)
+    if case["files"] is not None and case.get("path_form") in ("rel", "dot") and case["cwd"] == "root":
+        # 'work/cfg0.ini' (also written './work/cfg0.ini': the path is normalised first): a two-component relative name is by definition looked up in the
+        # bundled config_files directory (OPTIONS.md); the property does not promise anything else for the './' spelling
         exp, rejected, why = None, True, "Dir/file.ini form resolves to the bundled configuration directory, where it does not exist"
     run = dict(case, net=tiny_network())
     res = forkcall.forkcall(observe_cli, run, 300)
